@@ -88,6 +88,14 @@ class C16(Engine):
         big = knobs.random() < 0.12
         numeric_enums = knobs.random() < 0.15
         spec, text, parsed = world.gen_world(run_seed, codec)
+        corpus_text = None
+
+        if knobs.random() < 0.12:
+            found = world.corpus_world(knobs)
+
+            if found is not None:
+                spec, corpus_text, parsed = found
+
         messages = []
 
         if parsed is not None:
@@ -99,7 +107,7 @@ class C16(Engine):
             messages = [[name, ser(value)] for name, value in drawn]
 
         return {'spec': spec, 'codec': codec, 'messages': messages,
-                'numeric_enums': numeric_enums,
+                'numeric_enums': numeric_enums, 'text': corpus_text,
                 'cuts': None, 'seed': run_seed}
 
     def execute(self, case):
@@ -107,7 +115,7 @@ class C16(Engine):
 
         result = Result()
         codec = case['codec']
-        text = specgen.render(case['spec'])
+        text = case.get('text') or specgen.render(case['spec'])
         outcome = world.compile_text(text, codec,
                                      case.get('numeric_enums', False))
         result.log.append(['compile', codec, outcome[0]])
@@ -256,6 +264,9 @@ class C16(Engine):
             and sa.get('codec') == sb.get('codec')
 
     def shrink(self, case, violation):
+        if case.get('text'):
+            return      # a corpus module: kept as it is
+
         for spec in shrink.shrink_spec(case['spec'],
                                        keep=[case['messages'][0][0]]):
             candidate = copy.deepcopy(case)
